@@ -25,7 +25,9 @@ THEOREMS_NOTE = ("C04_eval_exact: the dispatch mechanism computes the Specificat
                  "decoding is positional/decimal/escape meaning")
 TRUSTED = ["lexing of the text into tokens and that parsimonious implements the PEG semantics of the token-level parser model "
            "(Expr/Parser.v, proven sound w.r.t. the grammar relation and proven to invert the renderer) are sampled, not proved",
-           "unicodedata NFC normalisation in String equality is not modelled (generated strings are NFC-stable)",
+           "NFC normalisation in String equality is modelled by the standard algorithm over finite tables generated from "
+           "unicodedata (coq/Expr/Nfc.v: ASCII, three combining marks and their composites, Hangul); strings are generated "
+           "from that alphabet and the tables are re-derived and compared on every run",
            "the parser of the @print value format (a/b, true/false, Python string repr, {..}) in this module"]
 ASSUMPTIONS = ["powers with non-integer exponents and min/max over two or more sets are 'unspecified' in the model: only "
                "'value or InvalidDefinitionError' is required of the implementation there",
@@ -277,11 +279,68 @@ def lit(kind, text):
     return ["lit", kind, text]
 
 
+# ---- NFC: the alphabet for which coq/Expr/Nfc.v carries complete tables
+NFC_MARKS = [0x301, 0x327, 0x308]
+NFC_DIGEST = "a2878c886d8e0a65700ff5ac128cca8e8ed052c7"
+
+
+def nfc_selftest():
+    """Re-derive the composition/decomposition tables of coq/Expr/Nfc.v from this interpreter's unicodedata; a different
+    Unicode database would make the model's tables stale, so refuse to generate rather than raise false alarms."""
+    import hashlib
+    import json
+    import unicodedata as u
+    S = set(range(0, 128)) | {0xE9, 0xC9, 0x20AC, 0x1F600, 0x10FFFF, 0xFFFF, 0xE000, 0xD7FF, 0x7FF, 0x800, 0x10000, 0xD800, 0xDFFF, 0xDBFF, 0x80, 0xA0}
+    pairs = {}
+    changed = True
+    while changed:
+        changed = False
+        for c in list(S):
+            for m in NFC_MARKS:
+                r = u.normalize("NFC", chr(c) + chr(m))
+                if len(r) == 1 and (c, m) not in pairs:
+                    pairs[(c, m)] = ord(r)
+                    if ord(r) not in S:
+                        S.add(ord(r))
+                        changed = True
+    dec = {c: [ord(x) for x in u.normalize("NFD", chr(c))] for c in S if u.normalize("NFD", chr(c)) != chr(c)}
+    d = hashlib.sha1(json.dumps([sorted((a, b, c) for (a, b), c in pairs.items()), sorted((k, v) for k, v in dec.items())]).encode()).hexdigest()
+    if d != NFC_DIGEST:
+        raise RuntimeError("unicodedata differs from the tables in coq/Expr/Nfc.v (digest %s): regenerate them" % d)
+
+
+def esc(cps):
+    return "".join(chr(c) if 32 <= c < 127 and chr(c) not in "'\"\\" else ("\\u%04x" % c if c < 0x10000 else "\\U%08x" % c) for c in cps)
+
+
+def nfc_respell(rng, cps):
+    """An expression whose value is canonically equivalent to the code point list: NFD or NFC spelling, as one literal
+    or as a concatenation split at a random place (possibly between a base and its combining mark)."""
+    import unicodedata as u
+    form = rng.choice(["NFD", "NFC", "NFD"])
+    t = [ord(c) for c in u.normalize(form, "".join(chr(c) for c in cps))]
+    if len(t) >= 2 and rng.random() < 0.75:
+        i = rng.randrange(1, len(t))
+        e = ["bin", "+", lit("str", "'" + esc(t[:i]) + "'"), lit("str", "'" + esc(t[i:]) + "'")]
+        if len(t) - i >= 2 and rng.random() < 0.3:
+            j = rng.randrange(i + 1, len(t))
+            e = ["bin", "+", ["bin", "+", lit("str", "'" + esc(t[:i]) + "'"), lit("str", "'" + esc(t[i:j]) + "'")], lit("str", '"' + esc(t[j:]) + '"')]
+        return e
+    return lit("str", "'" + esc(t) + "'")
+
+
+NFC_WORDS = [[0xE9], [0x65, 0x301], [0x1E09], [0x63, 0x301, 0x327], [0xE7, 0x301], [0x107, 0x327], [0x1D8], [0x75, 0x308, 0x301], [0x75, 0x301, 0x308], [0xAC00], [0xAC01],
+             [0x1100, 0x1161, 0x11A8], [0xAC00, 0x11A8], [0x61, 0xE9, 0x62], [0x65, 0x301, 0x301], [0x229, 0x301], [0x65, 0x327, 0x301], [0x5A, 0x301], [0x179],
+             [0x301], [0x301, 0x65], [0x61, 0x308, 0x62, 0x327], [0xD55C, 0xAE00], [0x1112, 0x1161, 0x11AB, 0x1100, 0x1173, 0x11AF], [0x78, 0x301], [0x20AC, 0x301]]
+
+
 def str_variant(rng, a):
     """A string literal equal or nearly equal to the literal a (same text, other quotes, letter case, blanks, escapes)."""
     text = a[2]
     q, inner = text[0], text[1:-1]
     r = rng.random()
+    if "\\" not in inner and inner and rng.random() < 0.2:
+        return nfc_respell(rng, [ord(c) for c in inner])
     if "\\" in inner or r < 0.25:
         return lit("str", text)
     if r < 0.5:
@@ -368,12 +427,19 @@ class Gen:
                 k = rng.choice(["str", "bool"])
                 a = self.gen(k, d - 1)
                 b = self.gen(k, d - 1)
-                if k == "str" and a[0] == "lit" and a[1] == "str" and rng.random() < 0.6:
+                if k == "str" and rng.random() < 0.15:
+                    w = rng.choice(NFC_WORDS)
+                    a, b = nfc_respell(rng, w), nfc_respell(rng, w if rng.random() < 0.8 else rng.choice(NFC_WORDS))
+                    if rng.random() < 0.3:
+                        a, b = ["set", [a]], ["set", [b]]
+                elif k == "str" and a[0] == "lit" and a[1] == "str" and rng.random() < 0.6:
                     b = str_variant(rng, a)
                 return ["bin", rng.choice(["==", "!="]), a, b]
             k = rng.choice(["set:int", "set:int", "set:str", "set:rat", "set:set:int"])
             return ["bin", rng.choice(["==", "!=", "<=", ">=", "<", ">"]), self.gen(k, d - 1), self.gen(k, d - 1)]
         if kind == "str":
+            if rng.random() < 0.12:
+                return nfc_respell(rng, rng.choice(NFC_WORDS))
             if leaf or rng.random() < 0.4:
                 return lit("str", gen_str_text(rng))
             return ["bin", "+", self.gen("str", d - 1), self.gen("str", d - 1)]
@@ -581,6 +647,29 @@ def targeted():
             out.append((["bin", op, L("str", x), L("str", y)], ["print"]))
         out.append((["bin", "==", ["set", [L("str", x)]], ["set", [L("str", y)]]], ["print"]))
         out.append((["attr", ["set", [L("str", x), L("str", y)]], "count"], ["print"]))
+    # string equality is on NFC-normalised text, also for values formed by concatenation across a normalisation seam;
+    # elements of sets are compared as they are; the printed value is the text as written
+    for w in NFC_WORDS:
+        import unicodedata as u
+        nfd = [ord(c) for c in u.normalize("NFD", "".join(chr(c) for c in w))]
+        nfc = [ord(c) for c in u.normalize("NFC", "".join(chr(c) for c in w))]
+        whole_c, whole_d = L("str", "'" + esc(nfc) + "'"), L("str", "'" + esc(nfd) + "'")
+        forms = [whole_c, whole_d]
+        for i in range(1, len(nfd)):
+            forms.append(["bin", "+", L("str", "'" + esc(nfd[:i]) + "'"), L("str", '"' + esc(nfd[i:]) + '"')])
+        for f in forms:
+            out.append((f, ["print"]))
+            out.append((["bin", "==", f, whole_c], ["print"]))
+            out.append((["bin", "!=", f, whole_c], ["assert"]))
+            out.append((["bin", "==", whole_d, f], ["assert"]))
+            out.append((["bin", "==", ["set", [f]], ["set", [whole_c]]], ["print"]))
+            out.append((["attr", ["set", [f, whole_c, whole_d]], "count"], ["print"]))
+            out.append((["bin", "<=", ["set", [f]], ["set", [whole_c, whole_d]]], ["print"]))
+        out.append((["bin", "==", ["bin", "+", whole_d, L("str", "'x'")], ["bin", "+", whole_c, L("str", '"x"')]], ["print"]))
+    # raw (unescaped) combining characters in the source text
+    out.append((["bin", "==", ["bin", "+", L("str", "'e'"), L("str", "'\u0301'")], L("str", "'\xe9'")], ["print"]))
+    out.append((["bin", "==", L("str", "'e\u0301'"), L("str", "'\xe9'")], ["assert"]))
+    out.append((L("str", "'e\u0301'"), ["print"]))
     # division / modulo sign conventions and zero divisors
     for a in ("7", "-7", "7.5", "-7.5", "0"):
         for b in ("2", "-2", "0", "0.0", "2.5", "-2.5", "1/3"):
@@ -633,6 +722,7 @@ def targeted():
 
 
 def generate(rng, tier):
+    nfc_selftest()
     cases, streams = [], []
     all_env = list(range(len(ENV)))
     for tree, chan in targeted():
